@@ -174,7 +174,7 @@ PROPS = {
     },
     "C18": {
         "lean": ["FsnVerif.Props.C18"],
-        "lean_support": ["FsnVerif.Model.Kqueue", "FsnVerif.Model.KqFull"],
+        "lean_support": ["FsnVerif.Model.Kqueue", "FsnVerif.Model.KqFull", "FsnVerif.Proofs.KqFullLemmas", "FsnVerif.Proofs.KqFullFrame", "FsnVerif.Proofs.KqFullEvents"],
         "stages": [{"name": "kq", "cmd": "scratch:kq", "what": "C18", "session_ops": ["kqf", "reset"]}],
         "rule": KQ_RULE,
         "assumptions": ["as C17; event order within one kevent batch follows descriptor order in the simulation: events of one step are compared as multisets"],
